@@ -145,14 +145,65 @@ def derives_from_local(fn, op, target_local, extra_transparent=(), depth=4000):
     return False
 
 
+def narrow(fn, pl, depth=10):
+    """follow a projected place `(l.p0.p1..)` back through single-definition copies and tuple /
+    enum-variant aggregates to the operand that was stored in that slot. returns a place without
+    the resolved projections, or None when the slot cannot be singled out."""
+    l = pl['l']
+    pr = list(pl.get('p', []))
+    for _ in range(depth):
+        if not pr:
+            return {'l': l}
+        ds = fn.defs(l)
+        if len(ds) != 1 or ds[0][2] != 'rv' or fn.proj_defs(l):
+            return None
+        rv = ds[0][3]
+        if rv['k'] == 'use':
+            q = op_place(rv['a'][0])
+            if q is None:
+                return None
+            l = q['l']
+            pr = list(q.get('p', [])) + pr
+            continue
+        if rv['k'] == 'agg' and rv.get('ak') in ('tuple', 'adt'):
+            p0 = pr[0]
+            if isinstance(p0, dict) and 'dc' in p0:
+                pr = pr[1:]
+                if not pr:
+                    return None
+                p0 = pr[0]
+            if isinstance(p0, dict) and 'f' in p0 and p0['f'] < len(rv['a']):
+                q = op_place(rv['a'][p0['f']])
+                if q is None:
+                    return {'l': None}       # a constant sits in the slot
+                l = q['l']
+                pr = list(q.get('p', [])) + pr[1:]
+                continue
+        return None
+    return None
+
+
 def reads_locals(fn, op, depth=4000):
-    """all locals an operand transitively derives from (through every def, every call arg)."""
+    """all locals an operand transitively derives from (through every def, every call arg).
+    Field-precise for tuples / single-variant wrappers built in the same body: reading `(t.1)`
+    of `t = (a, b)` derives from b only."""
     seen = set()
     work = []
     pl = op_place(op)
     if pl is None:
         return seen
-    work.append(pl['l'])
+
+    def push(p):
+        if p is None:
+            return
+        if p.get('p'):
+            n = narrow(fn, p)
+            if n is not None:
+                if n['l'] is not None:
+                    work.append(n['l'])
+                return
+        work.append(p['l'])
+    push(pl)
     while work:
         l = work.pop()
         if l in seen:
@@ -163,11 +214,9 @@ def reads_locals(fn, op, depth=4000):
         for (bi, si, kind, payload, _ln) in list(fn.defs(l)) + [d[:5] for d in fn.proj_defs(l)]:
             ops = payload['a'] if kind == 'call' else payload.get('a', [])
             for a in ops:
-                p = op_place(a)
-                if p is not None:
-                    work.append(p['l'])
+                push(op_place(a))
             if kind != 'call' and 'pl' in payload:
-                work.append(payload['pl']['l'])
+                push(payload['pl'])
     return seen
 
 
